@@ -1234,7 +1234,7 @@ fn requests_b(counters: &mut Vec<(String, u64)>) -> Vec<Rq> {
     let mut out = vec![];
     let mut rejected = 0;
     // (the last two initiators have 10 and 14 labels: a listed domain covers its sub-domains at any depth)
-    for (src_host, first_party_host) in [("a.com", "cdn.a.com"), ("sub.a.com", "cdn.a.com"), ("x.sub.a.com", "a.com"), ("b.com", "cdn.b.com"), ("c.com", "cdn.c.com"), ("", ""), ("l1.l2.l3.l4.l5.l6.l7.sub.a.com", "cdn.a.com"), ("www.a.com", "cdn.a.com"), ("x.www.a.com", "cdn.a.com"), ("m1.m2.m3.m4.m5.m6.m7.m8.m9.m10.m11.m12.b.com", "cdn.b.com"), ("bücher.de", "cdn.a.com"), ("x.bücher.de", "cdn.a.com")] {
+    for (src_host, first_party_host) in [("a.com", "cdn.a.com"), ("sub.a.com", "cdn.a.com"), ("x.sub.a.com", "a.com"), ("b.com", "cdn.b.com"), ("c.com", "cdn.c.com"), ("", ""), ("l1.l2.l3.l4.l5.l6.l7.sub.a.com", "cdn.a.com"), ("www.a.com", "cdn.a.com"), ("x.www.a.com", "cdn.a.com"), ("m1.m2.m3.m4.m5.m6.m7.m8.m9.m10.m11.m12.b.com", "cdn.b.com"), ("bücher.de", "cdn.a.com"), ("x.bücher.de", "cdn.a.com"), ("a.com", "xa.com"), ("sub.a.com", "cdn.xa.com")] {
         for host in ["example.com", first_party_host] {
             if host.is_empty() {
                 continue;
